@@ -265,7 +265,7 @@ def check_property(prop, tier, seed):
     for ct in contracts:
         for sc in ct.scenarios:
             n = getattr(ct, "shards", 1)
-            tasks.extend((ct.func, sc.name, timeout_ms, prop, i, n) for i in range(n))
+            tasks.extend((ct.key, sc.name, timeout_ms, prop, i, n) for i in range(n))
     tasks += [("lemma:" + l.name, "lemma", timeout_ms, prop) for l in w.lemmas if prop in l.serves]
     results = []
     if tasks:
@@ -283,7 +283,7 @@ def check_property(prop, tier, seed):
     reach = {}
     for res in results:
         key = res["func"]
-        f = functions.setdefault(key, {"function": key, "source_sha256_16": (w.repo.source_hash(key) if not key.startswith("lemma:") else "-"), "scenarios": 0, "paths": 0,
+        f = functions.setdefault(key, {"function": key, "source_sha256_16": (w.repo.source_hash(w.contracts[key].func) if not key.startswith("lemma:") else "-"), "scenarios": 0, "paths": 0,
                                        "obligations": 0, "exits": {}})
         if res.get("shard", 0) == 0:
             f["scenarios"] += 1
